@@ -243,8 +243,14 @@ func DecodeClaimsFromJSON(buf []byte) (IClaims, error) {
 
 	var found IProfile
 
+	profilePresent := false
+
 	for name, entry := range profilesRegister {
 		if profileTag, ok := decoded[entry.JSONTag]; ok {
+			if profileTag != nil {
+				profilePresent = true
+			}
+
 			if profileTag != entry.Profile.GetName() {
 				continue
 			}
@@ -259,7 +265,14 @@ func DecodeClaimsFromJSON(buf []byte) (IClaims, error) {
 	}
 
 	if found == nil {
-		return nil, errors.New(`could not match profile`)
+		// as documented: in the absence of a profile field, Profile1 (the
+		// default entry of the register) is assumed
+		entry, ok := profilesRegister[""]
+		if profilePresent || !ok {
+			return nil, errors.New(`could not match profile`)
+		}
+
+		found = entry.Profile
 	}
 
 	claims := found.GetClaims()
